@@ -434,4 +434,11 @@ func runC17(o *Out, rng *RNG, tier string, replay string) {
 		}
 		doInject(args)
 	}
+
+	// (5) the terminal loop shares its input with the commands it runs
+	nLoop := 150
+	if tier == "thorough" {
+		nLoop = 4000
+	}
+	c17LoopProbe(o, rng.Fork(), nLoop)
 }
